@@ -1,10 +1,15 @@
 import FiberModel.C07.Total
+import FiberModel.C07.MatcherTotal
+import FiberModel.C07.Accounted
 import FiberModel.C12.Props
 /-
 C07 — property theorems.
 
-(a) `*_total` (Total.lean, re-exported in props/C07.json): no input reaches a panic in fiber's own
-    request parsers.  Here: the flash decoder's allocation bound (from C12).
+(a) `*_total` (Total.lean, Total2.lean, Total3.lean, MatcherTotal.lean; listed in props/C07.json):
+    no input reaches a panic in fiber's own request parsers, binder key parser, negotiation scanners,
+    accessors and route matcher. `index_sites_accounted` / `modelled_sites_pinned` (Accounted.lean):
+    which Go functions those models cover, over a table regenerated from /repo on every run.
+    Here: the flash decoder's allocation bound (from C12).
 (b) `no_header_injection`, `emitted_block_reads_back`: whatever a handler passes to a response helper,
     every value handed to the header writer is free of CR/LF, so a strict reader recovers exactly the
     intended header lines and the body starts where intended. Rests on `all_sinks_safe`, a statement
